@@ -37,9 +37,9 @@ type vSrvStream struct {
 	g                 *c04Ghost
 }
 
-func (s *vSrvStream) Context() context.Context           { return s.ctx }
-func (s *vSrvStream) Send(*ordering.Metadata) error      { panic("unused") }
-func (s *vSrvStream) Recv() (*ordering.Metadata, error)  { panic("unused") }
+func (s *vSrvStream) Context() context.Context          { return s.ctx }
+func (s *vSrvStream) Send(*ordering.Metadata) error     { panic("unused") }
+func (s *vSrvStream) Recv() (*ordering.Metadata, error) { panic("unused") }
 
 func (s *vSrvStream) RecvMsg(m interface{}) error {
 	if s.next >= len(s.script) {
@@ -71,8 +71,8 @@ func (s *vSrvStream) SendMsg(m interface{}) error {
 }
 
 type c04Ghost struct {
-	active     []int   // per connection: handlers entered and not yet released
-	started    []int   // per connection: number of handlers started
+	active     []int // per connection: handlers entered and not yet released
+	started    []int // per connection: number of handlers started
 	startedReq [][]bool
 	released   [][]bool
 	behaviour  [][]int
